@@ -758,6 +758,12 @@ class TupimageTerminal:
                 )
             if inst.id is None:
                 raise ValueError("Cannot upload an ImageInstance without an ID")
+            # The ID may have been reassigned to another image (or deleted) since the
+            # instance was created. Rebind it, so that the upload bookkeeping refers to
+            # the image that is actually transmitted and displayed.
+            info = self.id_manager.get_info(inst.id)
+            if info is None or info.description != inst.get_description():
+                self.id_manager.set_id(inst.id, inst.get_description())
         else:
             inst = self.assign_id(
                 image,
